@@ -17,7 +17,7 @@ RULE = ("key sets of 1-6 generated keys (1-4 keys of the algorithm's key type, a
         "RSA-OAEP, ECDH-ES on P-256 and X25519, ECDH-1PU with a sender key set and skid) in compact, flattened and general form. "
         "consume: the token is minted by the reference under exactly the named key (must be accepted) or under ANOTHER key of the set "
         "but labelled with the kid (must fail); unknown kid must raise InvalidKeyIdError; absent kid accepted iff the set holds one key; after a first use the named key is taken out of the long-lived set and the same token must then fail with InvalidKeyIdError. "
-        "produce: with kid - the reference verifies/decrypts with that key and with no other; without kid - the header gains a kid of "
+        "produce (JWS also through joserfc.rfc7797 with b64=false): with kid - the reference verifies/decrypts with that key and with no other; without kid - the header gains a kid of "
         "the set whose key has the algorithm's type, and the public key set consumes the token. import_key_set(as_dict()) preserves the "
         "multiset of (kid, public numbers). non-trivial: set size >= 3 with >= 2 keys of the needed type; distinct = (op, alg, ser, kid "
         "state, position, key mode, set shape).")
